@@ -45,6 +45,22 @@ Oracle (independent of the model), on every stream but `wildroot`: preview
     exactly as before; a clean transform applies, and a failed apply leaves
     the tree as it was.  The same is run with lazily registered trans-ids (no
     model) to cover `_add_tree_children`.
+Failing applies ("never a partially applied tree" when the file system fails):
+    every case whose transform resolves clean and applies is applied again on
+    an untouched copy with the k-th os.rename of apply() failing - a real
+    OSError(EIO) out of os.rename (-> TransformRenameFailed) or a BaseException
+    raised there.  apply() must raise, and the WHOLE tree (paths, kinds,
+    contents, executable bits, versioning) must equal the tree before, with no
+    limbo / pending-deletion left after finalize.  k runs over ALL rename
+    indices for the `execfault` stream (executable-bit changes of existing,
+    non-moving files plus newly created entries whose names sort before and
+    after them, so that the mode change is the first / a middle / the last
+    thing apply() does; a minority with a rename or a replaced file) and over a
+    sample for the other streams.  Tie: the model's applyFaulted /
+    resolveAndApplyFaulted (driver field flt=) says "raises, disk as before";
+    theorems faulted_run_keeps_disk, faulted_apply_of_clean.  (Seeded change
+    C14b: rollback() no longer undid mode changes made before the first
+    rename - caught here with the mode in the diff.)
 
 Findings.  Repaired by fix: commits in /repo, plain violations if they return
 (corpus/C14 holds one minimal case each, run first): preview reads the base
@@ -111,7 +127,7 @@ THEOREMS = [
     "unversioned_parent_crash_witness", "non_dir_parent_duplicate_key_witness", "unversion_unversioned_raises_witness",
     # all or nothing
     "run_raise_keeps_disk_partial", "run_all_or_nothing", "apply_clean_applies", "inconsistent_delta_partial_witness",
-    "dangling_rename_failed_witness",
+    "dangling_rename_failed_witness", "faulted_run_keeps_disk", "faulted_apply_of_clean",
     # apply (disk) = final, paths, preview = apply
     "resolveOne_no_resolver", "applyRemovals_get", "removal_fields", "applied_disk_eq_final",
     "applied_dirent_eq_final", "diskPath_applyDisk_eq_finalPath", "appliedPaths_eq_final",
@@ -350,6 +366,58 @@ def gen_deep_case(rng, fmt):
     return entries, handles, ops
 
 
+def gen_execfault_case(rng, fmt):
+    """executable-bit changes of existing, non-moving versioned files together with newly
+    created entries - and, in a minority of cases, a rename or a replaced file - so that the
+    mode change is the first, a middle or the last thing apply() does (new_paths() is sorted:
+    names are drawn on both sides of the changed files).  Every os.rename of apply() gets a
+    failure injected (`nfault`)."""
+    entries = [["b", "file", "Bb%d" % rng.randint(0, 3), rng.random() < 0.5, True],
+               ["m", "directory", "", False, True],
+               ["m/f", "file", "Bmf%d" % rng.randint(0, 3), rng.random() < 0.5, True]]
+    if rng.random() < 0.6:
+        entries.append(["q", "file", "Bq", rng.random() < 0.5, True])
+    if rng.random() < 0.3:
+        entries.append(["a", "file", "Ba", False, rng.random() < 0.7])
+    entries.sort()
+    handles = [""] + [e[0] for e in entries]
+    H = handles.index
+    files = [e for e in entries if e[1] == "file" and e[4]]
+    ops = []
+    changed = rng.sample(files, rng.randint(1, min(2, len(files))))
+    for e in changed:
+        # mostly a real flip; sometimes re-asserting the current bit
+        ops.append(["set_executability", (not e[3]) if rng.random() < 0.85 else e[3], H(e[0])])
+    fid = 0
+    used = set(handles)
+    for _ in range(rng.randint(1, 3)):
+        par = rng.choice(["", "", "m"])
+        name = rng.choice(["0", "c", "n", "y", "zz"])
+        path = (par + "/" if par else "") + name
+        if path in used:
+            continue
+        used.add(path)
+        fid += 1
+        r = rng.random()
+        if r < 0.7:
+            ops.append(["new_file", name, H(par), "N%d" % rng.randint(0, 9), "fid%d" % fid, rng.choice([None, None, True])])
+        elif r < 0.85:
+            ops.append(["new_directory", name, H(par), "fid%d" % fid])
+        else:
+            ops.append(["new_symlink", name, H(par), "g%d" % rng.randint(0, 3), "fid%d" % fid])
+    r = rng.random()
+    others = [e for e in files if e not in changed]
+    if r < 0.2 and others:
+        # a rename of another file: a removal-phase rename now precedes the mode change
+        e = rng.choice(others)
+        ops.append(["adjust_path", rng.choice(["0r", "zr"]), H(os.path.dirname(e[0])), H(e[0])])
+    elif r < 0.3 and others:
+        e = rng.choice(others)
+        ops += [["delete_contents", H(e[0])], ["create_file", "M%d" % rng.randint(0, 9), H(e[0])]]
+    rng.shuffle(ops)
+    return entries, handles, ops
+
+
 def gen_ops(rng, entries, n, fmt):
     """pattern-based generator (what merge / revert / build_tree do with a transform).
     handles: 0 = root, 1..k = base paths (sorted), then missing paths, then new ids."""
@@ -582,14 +650,22 @@ def build_case(seed_tuple):
     rng = random.Random(repr(tuple(seed_tuple)))
     fmt, stream = seed_tuple[1], seed_tuple[3]
     entries = gen_base(rng)
+    nfault = None
     if stream == "deep":
         entries, handles, ops = gen_deep_case(rng, fmt)
         stream = "pre"
+    elif stream == "execfault":
+        entries, handles, ops = gen_execfault_case(rng, fmt)
+        stream = "pre"
+        nfault = 12
     elif stream in ("wild", "wildroot"):
         handles, ops = gen_wild_ops(rng, entries, rng.randint(1, 6), root_ops=stream == "wildroot")
     else:
         handles, ops = gen_ops(rng, entries, rng.randint(1, 7), fmt)
-    return dict(id=list(seed_tuple), fmt=fmt, stream=stream, entries=entries, handles=handles, ops=ops)
+    case = dict(id=list(seed_tuple), fmt=fmt, stream=stream, entries=entries, handles=handles, ops=ops)
+    if nfault:
+        case["nfault"] = nfault
+    return case
 
 
 # --------------------------------------------------------------------------
@@ -834,9 +910,16 @@ def run_real(case):
         if case["stream"] == "wildroot":
             return res
         if not res["resolve"].startswith("crashed"):
+            real_rename, nren = os.rename, [0]
+
+            def counting_rename(*a, **kw):
+                nren[0] += 1
+                return real_rename(*a, **kw)
+            os.rename = counting_rename
             try:
                 tt.apply()
                 res["apply"] = "ok"
+                res["nrename"] = nren[0]
             except MalformedTransform:
                 res["apply"] = "malformed"
             except Exception as e:
@@ -845,6 +928,8 @@ def run_real(case):
                 res["apply_tb"] = traceback.format_exc()[-700:]
                 res["apply_chain"] = _chain(e)[0]
                 res["apply_errno"] = getattr(e, "errno", None)
+            finally:
+                os.rename = real_rename
     finally:
         try:
             tt.finalize()
@@ -879,8 +964,93 @@ def run_real(case):
                 tt2.finalize()
             except Exception:
                 pass
+        try:
+            if "preview_fail" not in res:
+                run_faulted_applies(case, res, copy, fidmap, prereg, before)
+        finally:
             shutil.rmtree(copy, ignore_errors=True)
     return res
+
+
+class InjectedBase(BaseException):
+    """a fault that is not an Exception (what a KeyboardInterrupt looks like to apply())"""
+
+
+def fault_indices(case, nren):
+    """which of the `nren` os.rename calls of apply() get a failure injected: `nfault` of them
+    (all, up to 12, for the `execfault` stream; a sample for the others, chosen in _cases)"""
+    rng = random.Random(repr(case["id"]) + "faults")
+    ks = list(range(nren))
+    return sorted(rng.sample(ks, min(case.get("nfault", 0), len(ks))))
+
+
+def run_faulted_applies(case, res, copy, fidmap, prereg, before):
+    """`never a partially applied tree` under file-system failures: the same resolved transform
+    is applied again on the untouched copy with the k-th os.rename of apply() failing (a real
+    OSError(EIO) from os.rename, or a BaseException raised there).  apply() must raise, and the
+    whole tree - paths, kinds, contents, executable bits, versioning - must be as before, with
+    nothing left in the limbo / pending-deletion areas.  Each failed apply leaves the copy
+    untouched if the property holds, so the copy is reused; the first violation ends the series."""
+    import errno
+    from breezy.transform import resolve_conflicts
+    from breezy.workingtree import WorkingTree
+    out = res["faults"] = []
+    rng = random.Random(repr(case["id"]) + "faultmode")
+    for k in fault_indices(case, res.get("nrename", 0)):
+        mode = rng.choice(["os", "os", "base"])
+        rec = dict(k=k, mode=mode)
+        out.append(rec)
+        wt3 = WorkingTree.open(copy)
+        tt3 = wt3.transform()
+        real_rename, n = os.rename, [0]
+        hit = []
+
+        def failing_rename(src, dst, *a, **kw):
+            j = n[0]
+            n[0] += 1
+            if j == k:
+                hit.append(os.path.relpath(dst, copy))
+                if mode == "os":
+                    raise OSError(errno.EIO, "injected I/O error", src)
+                raise InjectedBase("injected at rename %d" % k)
+            return real_rename(src, dst, *a, **kw)
+        try:
+            if run_ops(tt3, case, fidmap, prereg) != "ok":
+                rec["raised"] = "E:ops"
+                break
+            resolve_conflicts(tt3)
+            os.rename = failing_rename
+            try:
+                tt3.apply()
+                rec["raised"] = "returned"
+            except InjectedBase:
+                rec["raised"] = "E:Injected"
+            except Exception as e:
+                rec["raised"] = "E:" + type(e).__name__
+                rec["errno"] = getattr(e, "errno", None)
+            finally:
+                os.rename = real_rename
+        except Exception as e:
+            rec["raised"] = "E:setup:" + type(e).__name__
+        finally:
+            os.rename = real_rename
+            try:
+                tt3.finalize()
+            except Exception as e:
+                rec["finalize"] = "E:" + type(e).__name__
+        rec["target"] = hit[0] if hit else None
+        ctl = ".git" if case["fmt"] == "git" else ".bzr/checkout"
+        rec["leftovers"] = [a for a in ("limbo", "pending-deletion") if os.path.lexists(os.path.join(copy, ctl, a))]
+        try:
+            after = dump_disk(copy)
+        except Exception as e:
+            after = {"<error>": [type(e).__name__, "", False, False]}
+        rec["same"] = after == before
+        if not rec["same"]:
+            rec["diff"] = _diffs(_norm_real(case["fmt"], before), _norm_real(case["fmt"], after))[:4]
+            break
+        if rec["leftovers"] or not hit:
+            break
 
 
 # --------------------------------------------------------------------------
@@ -1136,6 +1306,8 @@ def check_case(ctx, case, res, reply, flags):
     fmt, stream = case["fmt"], case["stream"]
     facts = _facts(ctx)
     cid = dict(id=case["id"], fmt=fmt, stream=stream, entries=case["entries"], handles=case["handles"], ops=case["ops"])
+    if case.get("nfault"):
+        cid["nfault"] = case["nfault"]
     m = parse_reply(reply) if reply is not None else None
     nconf = 0 if res.get("conf0", "-") in ("-",) else len(res.get("conf0", "").split(","))
     ctx.case(dict(fmt=fmt, stream=stream, e=case["entries"], o=case["ops"], h=case["handles"]),
@@ -1277,6 +1449,34 @@ def check_case(ctx, case, res, reply, flags):
         ctx.count("discrepancy:%s" % (fam or "unclassified"))
         ctx.violation(cid, "preview tree and applied tree differ at %r: %s preview=%r applied=%r"
                       % (d[0], d[1], d[2], d[3]), family=fam)
+    check_faults(ctx, cid, case, res, m)
+
+
+def check_faults(ctx, cid, case, res, m):
+    """oracle and tie for the failing applies of one case"""
+    for rec in res.get("faults", []):
+        ctx.case(dict(id=case["id"], fault=rec["k"], mode=rec["mode"]))
+        ctx.count("faulted-apply:%s:%s" % (case["fmt"], rec["mode"]))
+        what = "apply() with a failure injected at its os.rename #%d (%s, target %s)" % (rec["k"], rec["mode"], rec.get("target"))
+        fc = dict(cid, fault=rec["k"], fault_mode=rec["mode"])
+        if rec.get("raised", "").startswith(("E:ops", "E:setup")) or rec.get("target") is None:
+            ctx.mismatch(fc, "second build of the same transform: %s" % rec.get("raised"), "as the first build", tie="T2 faulted apply")
+            continue
+        expect = "E:TransformRenameFailed" if rec["mode"] == "os" else "E:Injected"
+        if rec["raised"] != expect:
+            ctx.violation(fc, "%s ended with %s instead of raising %s" % (what, rec["raised"], expect[2:]))
+        if not rec["same"]:
+            ctx.violation(fc, "partially applied tree: %s raised %s and left the tree changed: %r"
+                          % (what, rec["raised"], rec.get("diff")))
+        if rec.get("leftovers") or rec.get("finalize"):
+            ctx.violation(fc, "%s left %r behind (finalize: %s)" % (what, rec.get("leftovers"), rec.get("finalize")))
+        # tie: the model's apply with a failing mover phase raises and leaves the disk as before
+        if m is not None and "raw" not in m and m.get("diag", {}).get("flt"):
+            ctx.traces += 1
+            impl = "E:%s:%s" % ("TransformRenameFailed" if rec["raised"] in ("E:TransformRenameFailed", "E:Injected") else rec["raised"][2:],
+                                "same" if rec["same"] else "changed")
+            if impl != m["diag"]["flt"]:
+                ctx.mismatch(fc, impl, m["diag"]["flt"], tie="T2 faulted apply")
 
 
 def _apply_modelled(ra):
@@ -1326,6 +1526,13 @@ def _cases(ctx, n):
             i += 1
         for k in range(max(12, n // 12)):
             out.append(build_case((ctx.seed, fmt, k, "deep")))
+        for k in range(max(16, n // 10)):
+            out.append(build_case((ctx.seed, fmt, k, "execfault")))
+    # failing applies: all rename indices for the execfault stream (build_case), a sample elsewhere
+    frng = random.Random(ctx.seed * 7919 + 13)
+    for c in out:
+        if "nfault" not in c and c["stream"] not in ("wildroot", "lazy"):
+            c["nfault"] = ctx.pick(1 if frng.random() < 0.35 else 0, 3)
     return out
 
 
